@@ -101,6 +101,9 @@ _public_ int m_mod_set_batch_timeout(m_mod_t *mod, uint64_t timeout_ns) {
     M_MOD_ASSERT(mod);
 
     // src_deregister and src_register already consume a token
+    // Refuse beforehand if they could not both go through: no half-applied change on -EAGAIN
+    const uint64_t needed_tokens = (mod->batch.timer.ns != 0) + (timeout_ns != 0);
+    M_RET_ASSERT(mod->tb.tokens >= needed_tokens, -EAGAIN);
 
     /* If it was already set, remove old timer */
     if (mod->batch.timer.ns != 0) {
